@@ -537,8 +537,51 @@ fn compaction_stress(p: &mut ProbeReport, r: &mut Rng, which: &str, rounds: usiz
 }
 
 // ---------------- C06: each record's own verdict, cut to the best `limit` ----------------
+/// stores whose records are close relatives of one word (the word, extensions of it, one-edit neighbours, its
+/// prefixes) in every order, asked with the word plus / minus a letter: whatever scratch state one candidate leaves
+/// behind meets a candidate that resembles it. Every hit is compared with the record's own single-record store
+/// searched on a fresh thread, and every record that is a hit on its own must be listed.
+fn neighbour_locality(p: &mut ProbeReport, r: &mut Rng, rounds: usize) {
+    for it in 0..rounds {
+        let code = LANGS[it % LANGS.len()];
+        let v = vocab(code);
+        let small: Vec<char> = if code == "ru" { vec!['а', 'б', 'в'] } else { vec!['a', 'b', 'c'] };
+        let base: Vec<char> = if it % 2 == 0 { (0..r.range(2, 5)).map(|_| *r.pick(&small)).collect() } else { v.word(r).chars().take(r.range(3, 6)).collect() };
+        if base.is_empty() { continue; }
+        let letter = |r: &mut Rng| if r.chance(1, 2) { *r.pick(&small) } else { *r.pick(&v.letters) };
+        let ext = |r: &mut Rng, w: &Vec<char>, k: usize| { let mut x = w.clone(); for _ in 0..k { x.push(letter(r)); } x };
+        let edit = |r: &mut Rng, w: &Vec<char>| { let mut x = w.clone(); let i = r.below(x.len()); match r.below(3) { 0 => { x[i] = letter(r); } 1 => { x.insert(i, letter(r)); } _ => { if x.len() > 1 { x.remove(i); } } } x };
+        let mut family: Vec<Vec<char>> = vec![base.clone(), ext(r, &base, 1), ext(r, &base, 2), ext(r, &base, 3), edit(r, &base), base[..base.len() - 1].to_vec()];
+        let e2 = ext(r, &base, 2); family.push(edit(r, &e2));
+        family.retain(|w| !w.is_empty());
+        let n = r.range(2, 4).min(family.len());
+        r.shuffle(&mut family);
+        let recs: Vec<(usize, String, usize)> = family.iter().take(n).enumerate().map(|(i, w)| {
+            let t: String = w.iter().collect();
+            (i + 1, if r.chance(1, 4) { format!("{} {}", t, v.word(r)) } else { t }, 100 - i)
+        }).collect();
+        let scn = Scn { lang: code.to_string(), recs: recs.clone(), limit: 10 };
+        let st = scn.build();
+        let mut queries: Vec<Vec<char>> = vec![ext(r, &base, 1), base.clone(), edit(r, &base), ext(r, &base, 2)];
+        let e1 = ext(r, &base, 1); queries.push(edit(r, &e1));
+        let markers = ("[".to_string(), "]".to_string());
+        for qv in queries {
+            let q: String = qv.iter().collect();
+            let hits = search_results(&st, &q);
+            p.eval(&format!("nb|{}|{:?}|{}", code, recs.iter().map(|e| e.1.clone()).collect::<Vec<_>>(), q), hits.len() > 1);
+            for rec in &recs {
+                let alone = fresh_thread_search(code, &[rec.clone()], 1, &markers, &q);
+                let here: Vec<&(usize, String)> = hits.iter().filter(|h| h.0 == rec.0).collect();
+                let same = match (alone.first(), here.first()) { (None, None) => true, (Some(a), Some(h)) => a.1 == h.1 && here.len() == 1, _ => false };
+                if !same { p.fail(format!("record {} {:?} gives {:?} among its relatives but {:?} in a store of its own (query {:?})", rec.0, rec.1, here, alone, q), scn.case("c06-neighbours", vec![Op::Search(q.clone())])); return; }
+            }
+        }
+    }
+}
+
 fn p06(p: &mut ProbeReport, r: &mut Rng, budget: usize) {
     compaction_stress(p, r, "C06", if budget > 5000 { 12 } else { 2 });
+    neighbour_locality(p, r, if budget > 5000 { 6000 } else { 700 });
     let budget = budget + p.evaluations;
     let mut i = 0;
     while p.evaluations < budget {
@@ -561,7 +604,7 @@ fn p06(p: &mut ProbeReport, r: &mut Rng, budget: usize) {
             for (id, title) in &hits {
                 let rec = scn.recs.iter().find(|e| e.0 == *id).unwrap();
                 let single = Scn { lang: code.into(), recs: vec![rec.clone()], limit: 1 };
-                let alone = search_results(&single.build(), &q);
+                let alone = if limit % 2 == 0 { search_results(&single.build(), &q) } else { fresh_thread_search(code, &single.recs, 1, &("[".to_string(), "]".to_string()), &q) };
                 if alone.len() != 1 || alone[0].1 != *title { let (w, c) = mk(format!("hit {} {:?} but alone it gives {:?}", id, title, alone)); p.fail(w, c); }
             }
             if n <= 10 * limit {
@@ -849,7 +892,33 @@ fn p10(p: &mut ProbeReport, r: &mut Rng, budget: usize) {
 
 // ---------------- C11: case, composition form, folded accents, leading separators ----------------
 fn p11(p: &mut ProbeReport, r: &mut Rng, budget: usize) {
+    // every letter of every language's inventory that has a canonical decomposition: stored / asked decomposed vs precomposed
+    for code in LANGS.iter().skip(1) {
+        let v = vocab(code);
+        for &c in &v.accents {
+            let (b, m) = match decompose_char(c) { Some(x) => x, None => continue };
+            let (w1, w2) = (v.word(r), v.word(r));
+            for (pre, post) in [("", w1.as_str()), (w1.as_str(), ""), (w1.as_str(), w2.as_str())] {
+                let tp = format!("{}{}{} {}", pre, c, post, w2);
+                let td = format!("{}{}{}{} {}", pre, b, m, post, w2);
+                let other = format!("{} {}", v.word(r), v.word(r));
+                let sp = Scn { lang: code.to_string(), recs: vec![(1, tp.clone(), 5), (2, other.clone(), 3)], limit: 10 };
+                let sd = Scn { lang: code.to_string(), recs: vec![(1, td.clone(), 5), (2, other.clone(), 3)], limit: 10 };
+                let (stp, std_) = (sp.build(), sd.build());
+                let qp: String = format!("{}{}{}", pre, c, post);
+                let qd: String = format!("{}{}{}{}", pre, b, m, post);
+                for q in [qp.clone(), qd.clone(), w2.clone(), String::new()] {
+                    p.eval(&format!("{}|letter|{}|{}", code, c, q), true);
+                    let (a, d) = (search_results(&stp, &q), search_results(&std_, &q));
+                    if a != d { p.fail(format!("title {:?} stored decomposed ({:?}) gives {:?}, stored precomposed gives {:?} (query {:?})", tp, td, d, a, q), sd.case("c11-letter-title", vec![Op::Search(q.clone())])); }
+                }
+                let (a, d) = (search_results(&stp, &qp), search_results(&stp, &qd));
+                if a != d { p.fail(format!("query {:?} written decomposed ({:?}) gives {:?} instead of {:?}", qp, qd, d, a), sp.case("c11-letter-query", vec![Op::Search(qp.clone()), Op::Search(qd.clone())])); }
+            }
+        }
+    }
     let mut i = 0;
+    let budget = budget + p.evaluations;
     while p.evaluations < budget {
         let code = LANGS[1 + i % (LANGS.len() - 1)]; i += 1;
         let v = vocab(code);
@@ -884,9 +953,10 @@ fn p11(p: &mut ProbeReport, r: &mut Rng, budget: usize) {
         // re-case letters with one-to-one case mappings
         let recase: String = q.chars().map(|c| if r.chance(1, 2) { let u: Vec<char> = c.to_uppercase().collect(); if u.len() == 1 && u[0].to_lowercase().collect::<Vec<_>>() == vec![c] && c.to_lowercase().collect::<Vec<_>>() == vec![c] { u[0] } else { c } } else { c }).collect();
         variants.push(("recase", recase));
-        // decompose the language's own accents
+        // decompose the language's own accents (inventory = the letters its tables mention; decomposition from the
+        // independent reference table, NOT from the compose table under test)
         let compose_targets: BTreeSet<char> = v.accents.iter().cloned().collect();
-        let dec: String = { let mut s = String::new(); for c in q.chars() { match decompose_char(c) { Some((b, m)) if compose_targets.contains(&c) && r.chance(2, 3) && lang.unicode_compose(&[b, m]) == Some(vec![c]) => { s.push(b); s.push(m); } _ => s.push(c) } } s };
+        let dec: String = { let mut s = String::new(); for c in q.chars() { match decompose_char(c) { Some((b, m)) if compose_targets.contains(&c) && r.chance(2, 3) => { s.push(b); s.push(m); } _ => s.push(c) } } s };
         variants.push(("decompose", dec));
         // fold accents the language folds
         let fold: String = { let mut s = String::new(); for c in q.chars() { if r.chance(2, 3) { if let Some((_, red)) = lang.unicode_reduce(&[c]) { s.extend(red.iter()); continue; } } s.push(c); } s };
@@ -899,7 +969,7 @@ fn p11(p: &mut ProbeReport, r: &mut Rng, budget: usize) {
         }
         // decomposed vs precomposed titles
         let mut scn2 = scn.clone();
-        for e in scn2.recs.iter_mut() { let mut s = String::new(); for c in e.1.chars() { match decompose_char(c) { Some((b, m)) if lang.unicode_compose(&[b, m]) == Some(vec![c]) => { s.push(b); s.push(m); } _ => s.push(c) } } e.1 = s; }
+        for e in scn2.recs.iter_mut() { let mut s = String::new(); for c in e.1.chars() { match decompose_char(c) { Some((b, m)) if compose_targets.contains(&c) => { s.push(b); s.push(m); } _ => s.push(c) } } e.1 = s; }
         if scn2.recs.iter().zip(scn.recs.iter()).any(|(a, b)| a.1 != b.1) {
             let got = search_results(&scn2.build(), &q);
             p.eval(&format!("{}|title-decomposed|{}", code, q), true);
@@ -1235,6 +1305,26 @@ fn p19(p: &mut ProbeReport, r: &mut Rng, budget: usize) {
         if let Err(e) = res { p.fail(format!("unchecked access out of range (lengths {} / {}): {}", la, lb, e), Case { name: "c19".into(), lang: "none".into(), stream: "probe", ops: vec![Op::Dist(a.clone(), vec![0; a.len()], b.clone(), vec![0; b.len()]), Op::Jacc(a.clone(), b.clone())] }); break; }
         let m = dl.dists.borrow();
         if m.verif_raw_len() != m.verif_size() * m.verif_size() || m.verif_size() < la.max(lb) + 2 { p.fail(format!("matrix size {} / buffer {} inconsistent for lengths {} / {}", m.verif_size(), m.verif_raw_len(), la, lb), Case { name: "c19".into(), lang: "none".into(), stream: "probe", ops: vec![] }); }
+    }
+    // exact fit: a word exactly as long as the current dimension allows, on a fresh instance and after growth
+    for round in 0..6 {
+        let dl = DamerauLevenshtein::new();
+        for _ in 0..4 {
+            let size = dl.dists.borrow().verif_size();
+            if size > 140 { break; }
+            let fit = size - 2;
+            let grow = fit + 1 + r.below(5 + round);
+            for (la, lb) in [(fit, 3), (3, fit), (fit, fit), (fit - 1, fit), (fit, fit - 1), (fit, 0), (0, fit), (1, fit), (fit, 1), (grow, 2)] {
+                let a: Vec<char> = (0..la).map(|_| *r.pick(&['a', 'b', 'c'])).collect();
+                let b: Vec<char> = (0..lb).map(|_| *r.pick(&['a', 'b', 'c'])).collect();
+                let (ta, tb) = (text_from_parts(&a, &vec![0; a.len()]), text_from_parts(&b, &vec![0; b.len()]));
+                p.eval(&format!("fit|{}|{}|{}", size, la, lb), true);
+                if let Err(e) = guarded(|| { dl.distance(&ta.view(0), &tb.view(0)); }) {
+                    p.fail(format!("unchecked access out of range (matrix dimension {}, lengths {} / {}): {}", size, la, lb, e), Case { name: "c19-fit".into(), lang: "none".into(), stream: "probe", ops: vec![Op::Dist(a.clone(), vec![0; a.len()], b.clone(), vec![0; b.len()])] });
+                    return;
+                }
+            }
+        }
     }
     // stores with long words and many records (counter vector)
     for code in &["none", "en"] {
